@@ -1,6 +1,7 @@
 package main
 
 import (
+	"fmt"
 	"go/ast"
 	"go/constant"
 	"go/types"
@@ -159,6 +160,60 @@ func checkDirtyGate(c *Ctx, p *Prog, fn *ssa.Function, rule string, isEmit func(
 		}
 		c.Check(ok && tied, rule, short+":clean-after-paint", p.pos(s.Pos()), "SetDirty(false) only under Dirty and only together with the payload write")
 	}
+	// and the other way round: a cell that was painted is marked clean on every way out,
+	// otherwise it is painted again by every later Show although nothing changed
+	stop := map[ssa.Instruction]bool{}
+	for _, cl := range cleans {
+		stop[cl] = true
+	}
+	left := ""
+	if recvTypeName(fn) == "tcell.simscreen" {
+		// the simulation's "emissions" are stores into its front buffer: repeating one is not
+		// observable, so an unmarked path (a wide rune cut off at the right edge) costs nothing
+		return
+	}
+	eachInstr(fn, func(in ssa.Instruction) {
+		if !isEmit(in) || deadBlock(in.Block()) {
+			return
+		}
+		for _, cl := range cleans {
+			if !inClosure(cl) && instrDominates(cl, in) {
+				return // already marked clean on every path to this emission
+			}
+		}
+		if reachesReturnAvoiding(in, stop) {
+			left += fmt.Sprintf("after the emission at %s (%s) the function can return without SetDirty(x,y,false); ", p.pos(in.Pos()), emitName(in))
+		}
+	})
+	c.Check(left == "", rule, short+":painted-implies-clean", p.pos(fn.Pos()), "a painted cell is marked clean: SetDirty(x,y,false) precedes the emission or lies on every path from it to a return "+left)
+}
+
+// reachesReturnAvoiding: some path from just after `from` reaches a return
+// of the function without executing any instruction of stop.
+func reachesReturnAvoiding(from ssa.Instruction, stop map[ssa.Instruction]bool) bool {
+	seen := map[*ssa.BasicBlock]bool{}
+	var walk func(b *ssa.BasicBlock, at int) bool
+	walk = func(b *ssa.BasicBlock, at int) bool {
+		for i := at; i < len(b.Instrs); i++ {
+			if stop[b.Instrs[i]] {
+				return false
+			}
+			if _, ok := b.Instrs[i].(*ssa.Return); ok {
+				return true
+			}
+		}
+		for _, sc := range b.Succs {
+			if seen[sc] || deadBlock(sc) {
+				continue
+			}
+			seen[sc] = true
+			if walk(sc, 0) {
+				return true
+			}
+		}
+		return false
+	}
+	return walk(from.Block(), instrIndex(from)+1)
 }
 
 var regSuffix = regexp.MustCompile(`@t[0-9]+`)
